@@ -667,7 +667,25 @@ impl Installer for SimInstaller {
                     w.rec(Kind::Installer(InstallerRec::ProgressSent { value: value.to_bits() }));
                 }
                 if let Some(obs) = observer {
-                    obs.receive_progress(Some("sim"), value, Some(100), Some(i + 1)).await;
+                    let cancel = {
+                        let _g = EnvGuard::enter();
+                        let mut w = lock(&shared);
+                        let rate = w.profile.installer.cancel_progress_permille;
+                        let c = w.draws.chance(&format!("{label}/progress#{i}/cancel"), rate);
+                        if c {
+                            w.stat("embedder.progress_report_cancelled");
+                        }
+                        c
+                    };
+                    let mut fut = obs.receive_progress(Some("sim"), value, Some(100), Some(i + 1));
+                    if cancel {
+                        // the report is started (the value is handed over) and then abandoned,
+                        // as an installer does that wraps its reports in a timeout
+                        let _ = futures::poll!(&mut fut);
+                        drop(fut);
+                    } else {
+                        fut.await;
+                    }
                 }
                 let step = {
                     let _g = EnvGuard::enter();
